@@ -8,6 +8,7 @@ import (
 	"time"
 
 	"github.com/karagenc/socket.io-go/internal/sync"
+	"github.com/karagenc/socket.io-go/internal/vhook"
 
 	"github.com/fatih/structs"
 	"github.com/karagenc/socket.io-go/adapter"
@@ -487,6 +488,7 @@ func (s *clientSocket) emitBuffered() {
 		for i := range packets {
 			packets[i] = s.sendBuffer[i].packet
 		}
+		vhook.Event("sendbuf.flush", "s", s, "buf", s.sendBuffer, "pk", packets)
 		s.manager.packet(packets...)
 		s.sendBuffer = nil
 	}
@@ -632,6 +634,7 @@ func (s *clientSocket) onAck(header *parser.PacketHeader, decode parser.Decode) 
 	if ok {
 		delete(s.acks, *header.ID)
 	}
+	vhook.Event("ack.lookup", "s", s, "id", *header.ID, "found", ok, "h", ack)
 	s.acksMu.Unlock()
 
 	if !ok {
@@ -726,6 +729,7 @@ func (s *clientSocket) registerAckHandler(f any, timeout time.Duration) (id uint
 			panic(err)
 		}
 		s.acks[id] = h
+		vhook.Event("ack.reg", "s", s, "id", id, "h", h, "to", false)
 		s.acksMu.Unlock()
 		return
 	}
@@ -734,6 +738,7 @@ func (s *clientSocket) registerAckHandler(f any, timeout time.Duration) (id uint
 		s.debug.Log("Timeout occured for ack with ID", id, "timeout", timeout)
 		s.acksMu.Lock()
 		delete(s.acks, id)
+		vhook.Event("ack.purge", "s", s, "id", id)
 		s.acksMu.Unlock()
 
 		// Drop every buffered packet of this ack (a binary event has several).
@@ -749,6 +754,7 @@ func (s *clientSocket) registerAckHandler(f any, timeout time.Duration) (id uint
 			kept = append(kept, packet)
 		}
 		s.sendBuffer = kept
+		vhook.Event("sendbuf.purge", "s", s, "id", id, "rem", s.sendBuffer)
 	})
 	if err != nil {
 		panic(err)
@@ -756,6 +762,7 @@ func (s *clientSocket) registerAckHandler(f any, timeout time.Duration) (id uint
 
 	s.acksMu.Lock()
 	s.acks[id] = h
+	vhook.Event("ack.reg", "s", s, "id", id, "h", h, "to", true)
 	s.acksMu.Unlock()
 	return
 }
@@ -864,6 +871,7 @@ func (s *clientSocket) _sendBuffers(volatile, forceSend bool, ackID *uint64, buf
 				}
 			}
 			s.sendBuffer = append(s.sendBuffer, buffers...)
+			vhook.Event("sendbuf.append", "s", s, "id", ackID, "n", len(buffers), "buf", s.sendBuffer)
 			s.sendBufferMu.Unlock()
 		} else {
 			s.debug.Log("Packet is discarded")
